@@ -134,6 +134,29 @@ R4 = {
  "C20": "exact zero-start test; query methods write no receiver state",
 }
 
+# Clauses added after the fifth round (DESIGN.md §10.4).
+R5 = {
+ "C01": "overflow-free use of the user-set line width",
+ "C02": "separator-only attribute splitting",
+ "C03": "abstract end-of-input run of the ReadLine loops (accumulator emptiness); length facts for constant subscripts of input lines, with predicate summaries",
+ "C05": "no receiver writes in alphabet methods; row counters range over rows",
+ "C06": "candidate window start initialised from Start()",
+ "C07": "identity start of min/max folds; guarded use of the nil-able quality filter in column views",
+ "C08": "delegation within the aligner family",
+ "C09": "watermark exit test of the gap-run fill",
+ "C10": "alphabet table rules of C17; lock-step advance of the scanner's counters",
+ "C11": "who-may-remove rule for run files; who-may-reset rule for the cycle count",
+ "C12": "who-may-reset rule and per-cycle reset analysis as C11",
+ "C13": "per-cycle reset (incl. sync.Once fields) and who-may-remove as C11; error results of the sorter's own helpers",
+ "C14": "ring reduction only at the slot subscript; no offset on the first flushed tube",
+ "C15": "min/max classification of the coverage intersection; count read after its last change",
+ "C16": "no internal image list in the exported pile; closed Overlap comparisons",
+ "C17": "per-string MaxASCII comparison; byte-wise alphabet methods",
+ "C18": "saturation before the narrowing conversion; every decode return under an encoding comparison",
+ "C19": "one thread count for channel capacity, tokens and workers; Operation calls under recover",
+ "C20": "one intron per neighbouring pair; location comparison between exons of the result",
+}
+
 NOT_APPLICABLE = {
 }
 
@@ -152,6 +175,10 @@ def main():
                 tech = tech + "; " + R4[pid]
                 text = text + " Round 4 (DESIGN §10.3) adds: " + R4[pid] + "."
                 ref = ref + ", §10.3"
+            if pid in R5:
+                tech = tech + "; " + R5[pid]
+                text = text + " Round 5 (DESIGN §10.4) adds: " + R5[pid] + "."
+                ref = ref + ", §10.4"
             checks.append({
                 "property_id": pid,
                 "quick_cmd": "./check %s quick" % pid,
